@@ -163,7 +163,7 @@ fn related(rng: &mut Rng, a: f64) -> f64 {
         5 => a - 700.0 - 300.0 * u,
         6 => a - 40.0 * u,
         7 => a - u,
-        8 => a - 1e-15,
+        8 => a - *rng.pick(&[1e-15, 1e-12, 1e-6, 1e-3, 0.01, 0.02, 0.05, 0.1]) * (0.5 + u),
         _ => return lp(rng),
     };
     b
